@@ -59,9 +59,9 @@ func c05R1(p *core.Program, r *core.Report, pl *pipeline) {
 	r.Floor(rule, 5)
 	genType := "(" + core.G("pkg/gengo.Generator") + ").GenerateType"
 	genAlias := "(" + core.G("pkg/gengo.AliasGenerator") + ").GenerateAliasType"
-	newFn := p.FuncByName("pkg/gengo", "(*gengoCtx).New")
+	newFn := ctxMethod(p, "New")
 	if newFn == nil {
-		r.Anchor(rule, "pkg/gengo.(*gengoCtx).New")
+		r.Anchor(rule, "New method of the context type of pkg/gengo")
 		return
 	}
 	loop, gen := genLoop(pl)
@@ -245,9 +245,12 @@ func c05R1(p *core.Program, r *core.Report, pl *pipeline) {
 		if !ok || len(ret.Results) != 1 {
 			return true
 		}
-		e := ast.Unparen(ret.Results[0])
+		// through type assertions and single-definition locals
+		e, _ := core.Resolve(ninfo, newFn.Body, ret.Results[0])
+		e = ast.Unparen(e)
 		if ta, ok := e.(*ast.TypeAssertExpr); ok {
-			e = ast.Unparen(ta.X)
+			e, _ = core.Resolve(ninfo, newFn.Body, ta.X)
+			e = ast.Unparen(e)
 		}
 		c, ok := e.(*ast.CallExpr)
 		if !ok {
@@ -258,9 +261,9 @@ func c05R1(p *core.Program, r *core.Report, pl *pipeline) {
 		switch {
 		case cn == "("+core.G("pkg/gengo.GeneratorNewer")+").New":
 		case cn == "(reflect.Value).Interface":
-			// receiver chain starts at reflect.New
-			s := core.ExprStr(c)
-			if !strings.HasPrefix(s, "reflect.New(") {
+			// the receiver is reflect.New(...)
+			rcv, _ := core.Resolve(ninfo, newFn.Body, recvOf(c))
+			if rc, isCall := ast.Unparen(rcv).(*ast.CallExpr); !isCall || core.CalleeName(ninfo, rc) != "reflect.New" {
 				okRet = false
 			}
 		default:
@@ -289,7 +292,7 @@ func c05R2(p *core.Program, r *core.Report, pl *pipeline) {
 	// the context literal inside the loop
 	var lit *ast.CompositeLit
 	ast.Inspect(loop.Body, func(n ast.Node) bool {
-		if cl, ok := n.(*ast.CompositeLit); ok && core.NamedTypeName(info.TypeOf(cl)) == core.G("pkg/gengo.gengoCtx") {
+		if cl, ok := n.(*ast.CompositeLit); ok && core.NamedTypeName(info.TypeOf(cl)) == ctxG(p) {
 			lit = cl
 		}
 		return true
@@ -405,7 +408,7 @@ func c05R3(p *core.Program, r *core.Report, pl *pipeline) {
 			return true
 		}
 		if u, ok := ast.Unparen(as.Rhs[0]).(*ast.UnaryExpr); ok && u.Op == token.AND {
-			if cl, ok := u.X.(*ast.CompositeLit); ok && core.NamedTypeName(info.TypeOf(cl)) == core.G("pkg/gengo.gengoCtx") {
+			if cl, ok := u.X.(*ast.CompositeLit); ok && core.NamedTypeName(info.TypeOf(cl)) == ctxG(p) {
 				ctxVar = core.VarOf(info, as.Lhs[0])
 			}
 		}
@@ -415,8 +418,8 @@ func c05R3(p *core.Program, r *core.Report, pl *pipeline) {
 		r.Anchor(rule, "per-iteration context variable")
 		return
 	}
-	dg := p.FuncByName("pkg/gengo", "(*gengoCtx).doGenerate")
-	newFn := p.FuncByName("pkg/gengo", "(*gengoCtx).New")
+	dg := pl.dispatch
+	newFn := ctxMethod(p, "New")
 	okRecv := true
 	what := ""
 	for _, c := range core.Calls(loop.Body, true) {
@@ -438,7 +441,22 @@ func c05R3(p *core.Program, r *core.Report, pl *pipeline) {
 	}
 	r.Check(okRecv, rule, f, "generation, callbacks and the emptiness test use the per-iteration context", loop.Pos(), "receiver/argument is the context allocated in this iteration", "`"+what+"` runs on another context than the one allocated for this (package, generator)")
 	// receiver-field stores of gengoCtx
-	allowed := map[string]string{"(*gengoCtx).Defer": "defers", "(*gengoCtx).doGenerateNamedType": "ignore", "(*gengoCtx).doGenerateAliasType": "ignore", "(*gengoCtx).Execute": "sumFile"}
+	// reviewed writers, by role: Defer appends to the callback list, the dispatchers set the ignore mark, Execute stores the loaded sum file
+	allowedStore := func(root *core.Func, fld *types.Var) bool {
+		switch fieldRole(p, fld) {
+		case "ctx.callbacks":
+			return root.Name == "(*"+ctxTypeName(p)+").Defer"
+		case "ctx.ignore":
+			for _, d := range pl.dispatchers {
+				if d == root {
+					return true
+				}
+			}
+		case "ctx.sumFile":
+			return pl.execute.Has(root)
+		}
+		return false
+	}
 	n := 0
 	for _, ff := range p.Funcs() {
 		if core.RelPkg(ff.Pkg.PkgPath) != "pkg/gengo" {
@@ -459,7 +477,7 @@ func c05R3(p *core.Program, r *core.Report, pl *pipeline) {
 					continue
 				}
 				fld := core.FieldOf(finfo, sel)
-				if fld == nil || core.NamedTypeName(finfo.TypeOf(sel.X)) != core.G("pkg/gengo.gengoCtx") {
+				if fld == nil || core.NamedTypeName(finfo.TypeOf(sel.X)) != ctxG(p) {
 					continue
 				}
 				n++
@@ -472,8 +490,7 @@ func c05R3(p *core.Program, r *core.Report, pl *pipeline) {
 						continue
 					}
 				}
-				want, ok := allowed[root.Name]
-				r.Check(ok && want == fld.Name(), rule, ff, "receiver-field store "+core.ExprStr(l), as.Pos(), "reviewed writer of this field", "a long-lived or shared context's field `"+fld.Name()+"` is written here: per-run state may carry over between packages or generators")
+				r.Check(allowedStore(root, fld), rule, ff, "receiver-field store "+core.ExprStr(l), as.Pos(), "reviewed writer of this field", "a long-lived or shared context's field `"+fld.Name()+"` is written here: per-run state may carry over between packages or generators")
 			}
 			return true
 		})
